@@ -530,6 +530,23 @@ def load_tus(cfiles=None, config='default', jobs=16):
     return out
 
 
+def load_raw_tus(cfiles=None):
+    """the translation units with the names the source uses (no alpha-normalisation against the reference tree): for rules
+    about the names themselves"""
+    global _mem
+    saved, _mem = _mem, {}
+    old = os.environ.get('REBVERIF_RAWNAMES')
+    os.environ['REBVERIF_RAWNAMES'] = '1'
+    try:
+        return load_tus(cfiles)
+    finally:
+        _mem = saved
+        if old is None:
+            del os.environ['REBVERIF_RAWNAMES']
+        else:
+            os.environ['REBVERIF_RAWNAMES'] = old
+
+
 def _gc_cache(maxfiles=400):
     try:
         fs = sorted(glob.glob(os.path.join(CACHE, '*.pkl')), key=os.path.getmtime)
